@@ -48,6 +48,11 @@ func TestC18(t *testing.T) {
 						b = gen.Mutate(rt, b)
 					}
 				}
+				// records often start and end with whitespace (the byte behind a record is then
+				// whitespace belonging to the next record)
+				if rapid.IntRange(0, 2).Draw(rt, "wsframe") == 0 {
+					b = append(append([]byte(" \n"), b...), ' ')
+				}
 				c.Steps = append(c.Steps, core.Case{Kind: "input", In: b})
 			}
 			ng := []int{8, 8, 16, 32}[rapid.IntRange(0, 3).Draw(rt, "goroutines")]
